@@ -39,8 +39,12 @@ pub trait LexicographicIterator {
     fn seek_upper_bound(&mut self, target: &str) -> std::result::Result<bool, Self::Error> {
         let exact_match = self.seek_lower_bound(target)?;
         if exact_match {
-            // Move to next string after exact match
-            self.next()?;
+            // Move past every string equal to the target (duplicates included)
+            while self.current() == Some(target) {
+                if !self.next()? {
+                    break;
+                }
+            }
         }
         Ok(false) // Never an exact match by definition
     }
@@ -155,7 +159,12 @@ impl<'a> LexicographicIterator for SortedVecLexIterator<'a> {
 
     fn seek_lower_bound(&mut self, target: &str) -> std::result::Result<bool, Self::Error> {
         match self.binary_search_by(|s| s.cmp(target)) {
-            Ok(pos) => {
+            Ok(mut pos) => {
+                // Binary search may land on any of several equal strings:
+                // step back to the first one
+                while pos > 0 && self.strings[pos - 1] == target {
+                    pos -= 1;
+                }
                 self.position = Some(pos);
                 Ok(true) // Exact match
             }
